@@ -28,6 +28,7 @@ TRUSTED = ['Lean 4.33 kernel', 'axioms: propext, Classical.choice, Quot.sound', 
 
 
 INT_INDEX_KEY = 'apply_gate_grad-int-index'
+SWEEP_CTX = {}     # sweep op line -> (info, tensors, psi, gout, names) for the failing-input search
 
 
 MUTATION_KEY = 'backward-mutates-input'
@@ -272,7 +273,9 @@ def sweep_ops(ctx, rng, add):
                             [('grad_output', gout_t, torch.tensor(gout, dtype=torch.complex128))] + [(f'gate tensor {nm}', a, torch.tensor(b, dtype=torch.complex128)) for nm, a, b in zip(names, tt, tens)])
             gs = [gl(grads[j][r].numpy()) for j, nm in enumerate(names) for r in range(rows[nm])]
             return f'{gl(out.detach().numpy())}|{gl(grads[-1].numpy())}|{"/".join(gs)}'
-        add(f'C04 sweep {n} {"|".join(prog)} {"|".join(params) or "-"} {gl(psi)} {gl(gout)}', f)
+        op_line = f'C04 sweep {n} {"|".join(prog)} {"|".join(params) or "-"} {gl(psi)} {gl(gout)}'
+        SWEEP_CTX[op_line] = (info, tens, psi, gout, names)
+        add(op_line, f)
         nshared = sum(1 for nm in names for r in range(rows[nm])) < sum(1 for i in range(len(circ.gate_index_list)) if 'ind_torch' in info[i])
         ctx.count('sweep-' + ('unitary' if unitary else 'general') + ('-shared' if nshared else '') + ('-placeholder' if nph else ''))
 
@@ -768,6 +771,116 @@ def probe_graphs(ctx, rng, worst):
         ctx.count(f'graph-{graph}'); ctx.count(f'last-{kind}')
 
 
+PREFIXES = ['none', 'H', 'cnot', 'cz', 'mixed']
+INPUT_GRAPHS = ['state-param', 'state-expr', 'chain2', 'chain3', 'state-param-chain2']
+
+
+def circuit_with_prefix(r2, n, prefix):
+    """fixed (non-trainable) gates first, then a random trainable part; the first trainable gate comes after the prefix"""
+    import numqi
+    circ = numqi.sim.Circuit(default_requires_grad=True)
+    if prefix in ('H', 'mixed'):
+        for q in range(n):
+            circ.H(q)
+    if prefix in ('cnot', 'mixed'):
+        for q in range(n - 1):
+            circ.cnot(q, q + 1)
+    if prefix in ('cz', 'mixed'):
+        for q in range(n - 1):
+            circ.cz(q + 1, q)
+    if prefix == 'mixed':
+        circ.single_qubit_gate(numqi.random.rand_haar_unitary(2, seed=int(r2.integers(1 << 30))), int(r2.integers(n)))
+    circ.ry(n - 1, float(r2.uniform(0, 6)))                      # trainable, touches the last qubit
+    tail, _ = random_circuit(r2, n, int(r2.integers(1, 6)), with_placeholder=False)
+    circ.extend_circuit(tail)
+    return circ
+
+
+def probe_inputs(ctx, rng, worst):
+    """the input state of a CircuitTorchWrapper is itself differentiable: a trainable state, a state produced by an autograd
+    expression, or the output of another circuit (chained circuits).  The gradient must be pulled back through *all* gates,
+    including the fixed gates in front of the first trainable one."""
+    import numqi, torch
+    todo = [(g, pf) for g in INPUT_GRAPHS for pf in PREFIXES]
+    if ctx.quick():
+        todo = [(g, PREFIXES[(i + j) % len(PREFIXES)]) for i, g in enumerate(INPUT_GRAPHS) for j in (0, 1, 3)]
+    for graph, prefix in todo:
+        seed = int(rng.integers(1 << 30)); r2 = np.random.default_rng(seed)
+        n = 3
+        nc = 3 if graph == 'chain3' else (2 if 'chain2' in graph else 1)
+        info = dict(op='CircuitTorchWrapper-input-graph', graph=graph, prefix=prefix, seed=seed, num_qubit=n)
+        try:
+            # the first circuit of a pure chain sees a constant input; every circuit that sees a differentiable input gets the prefix
+            circs = []
+            for i in range(nc):
+                sees_grad = (i > 0) or graph.startswith('state')
+                circs.append(circuit_with_prefix(r2, n, prefix if sees_grad else 'none'))
+            if any(c.num_qubit != n for c in circs):
+                continue
+            wraps = [numqi.sim.CircuitTorchWrapper(c) for c in circs]
+            a = torch.tensor(r2.normal(size=2 ** n) + 1j * r2.normal(size=2 ** n))
+            b = torch.tensor(r2.normal(size=2 ** n) + 1j * r2.normal(size=2 ** n))
+            q0np = r2.normal(size=2 ** n) + 1j * r2.normal(size=2 ** n); q0np /= np.linalg.norm(q0np)
+            sre = torch.nn.Parameter(torch.tensor(r2.normal(size=2 ** n)))
+            sim_ = torch.nn.Parameter(torch.tensor(r2.normal(size=2 ** n)))
+            plist = [w.theta[k] for w in wraps for k in sorted(w.theta.keys())]
+            if graph.startswith('state'):
+                plist = [sre, sim_] + plist
+            sizes = [p.numel() for p in plist]
+            snaps = []
+
+            def input_state():
+                if graph.startswith('state-param'):
+                    return torch.complex(sre, sim_)
+                if graph == 'state-expr':
+                    z = torch.complex(sre, sim_) * torch.tensor(q0np) + 0.3 * torch.complex(sim_, sre) ** 2
+                    return z / torch.linalg.norm(z)
+                return torch.tensor(q0np)
+
+            def run(kindf, hook=False):
+                psi = input_state()
+                for c, w in zip(circs, wraps):
+                    psi = w(psi) if kindf == 'custom' else reimplement(c, w, psi, None)
+                    if hook and psi.requires_grad:
+                        psi.register_hook(lambda g: snaps.append((g, g.clone())))
+                v = torch.vdot(a, psi)
+                return (v * v.conj()).real + torch.vdot(b, psi).real + 0.3 * torch.vdot(b, psi).imag
+
+            def set_flat(x):
+                off = 0
+                with torch.no_grad():
+                    for p, sz in zip(plist, sizes):
+                        p.copy_(torch.tensor(x[off:off + sz]).reshape(p.shape)); off += sz
+            x0 = np.concatenate([p.detach().numpy().reshape(-1) for p in plist])
+            grads = {}
+            for kindf in ('custom', 'autograd'):
+                for p in plist:
+                    p.grad = None
+                run(kindf, hook=(kindf == 'custom')).backward()
+                grads[kindf] = np.concatenate([(p.grad if p.grad is not None else torch.zeros_like(p)).numpy().reshape(-1) for p in plist])
+            aliased = [i for i, (g, c) in enumerate(snaps) if not torch.equal(g, c)]
+            fd = fd_grad(lambda x: (set_flat(x), float(run('custom').detach()))[1], x0)
+            set_flat(x0)
+            e_ag, e_fd = rel_err(grads['custom'], grads['autograd']), rel_err(grads['custom'], fd)
+            worst['input_autograd'] = max(worst.get('input_autograd', 0.0), e_ag); worst['input_fd'] = max(worst.get('input_fd', 0.0), e_fd)
+        except Exception as e:
+            ctx.fail('input-grad-raises', f'{type(e).__name__}: {e} (graph {graph}, prefix {prefix})', info); continue
+        info = dict(info, gates=[[(g.name, str(ix)) for g, ix in c.gate_index_list] for c in circs], theta=x0.tolist())
+        if aliased:
+            ctx.fail(MUTATION_KEY + ':_CircuitFunction.backward', f'_CircuitFunction.backward modified the grad_output tensor handed to it by autograd '
+                     f'(input graph {graph}, prefix {prefix})', info)
+        elif e_ag > 1e-9:
+            ctx.fail('input-grad-vs-autograd', f'differentiable input state ({graph}, fixed prefix "{prefix}"): gradient differs from the pure-autograd '
+                     f're-implementation by {e_ag:.3e} — the gradient of the input state was not pulled back through all gates',
+                     dict(info, grad=grads['custom'].tolist(), autograd=grads['autograd'].tolist()))
+        elif e_fd > 1e-5:
+            ctx.fail('input-grad-vs-fd', f'differentiable input state ({graph}, prefix "{prefix}"): gradient differs from finite differences by {e_fd:.3e}',
+                     dict(info, grad=grads['custom'].tolist(), finite_difference=fd.tolist()))
+        else:
+            ctx.probe_ok(('input-graph', graph, prefix, seed))
+        ctx.count(f'input-{graph}'); ctx.count(f'prefix-{prefix}')
+
+
 def probe_aliasing_ops(ctx, rng):
     """the other hand-written backward passes must leave grad_output, their inputs and their saved tensors untouched"""
     import numqi, torch
@@ -911,6 +1024,7 @@ def probe(ctx):
             ctx.probe_ok(('circuit', seed))
     # (1b) several circuit branches in one graph, outputs consumed twice, every kind of last gate; aliasing of grad_output
     probe_graphs(ctx, rng, worst)
+    probe_inputs(ctx, rng, worst)
     probe_aliasing_ops(ctx, rng)
     # (2) Knill-Laflamme op and the VarQEC loss through the flat-parameter bridge
     for rep in range(2 if ctx.quick() else 8):
@@ -1096,7 +1210,34 @@ def search(ctx, hints):
     import numqi
     st = numqi.sim.state
     rng = np.random.default_rng(0)
+    import torch
+    from numqi.sim._torch_utils import _CircuitFunction
     for d in hints[:40]:
+        # the q0_grad half of the sweep: F is linear in the input state, so <q0_grad, dpsi> = <g_out, F(dpsi)> for every dpsi;
+        # evaluated on the real _CircuitFunction with the integer gate data of the disagreeing op (exact arithmetic)
+        if d['op'] in SWEEP_CTX:
+            info, tens, psi, gout, names = SWEEP_CTX[d['op']]
+            try:
+                for trial in range(3):
+                    dpsi = rg(rng, psi.shape, 2)
+                    tt = [torch.tensor(x, dtype=torch.complex128, requires_grad=True) for x in tens]
+                    q0 = torch.tensor(psi, dtype=torch.complex128, requires_grad=True)
+                    out = _CircuitFunction.apply(*tt, q0, info)
+                    grads = torch.autograd.grad(out, [q0], grad_outputs=torch.tensor(gout, dtype=torch.complex128))
+                    q0_grad = grads[0].numpy()
+                    with torch.no_grad():
+                        Fd = _CircuitFunction.apply(*[torch.tensor(x, dtype=torch.complex128) for x in tens], torch.tensor(dpsi, dtype=torch.complex128), info).numpy()
+                    lhs = np.vdot(q0_grad, dpsi); rhs = np.vdot(gout, Fd)
+                    if lhs != rhs:
+                        gates = [(info[i]['kind'], info[i]['name'], str(info[i]['index']), 'trainable' if 'ind_torch' in info[i] else 'fixed') for i in range(len(info) - 1)]
+                        ctx.fail('sweep-input-state-gradient', f'_CircuitFunction.backward: gradient of the input state is not the adjoint of the circuit: '
+                                 f'<q0_grad,dpsi>={lhs} but <g_out,F(dpsi)>={rhs} (first trainable gate is #{next((i for i, g in enumerate(gates) if g[3] == "trainable"), None)} of {len(gates)})',
+                                 dict(op='_CircuitFunction', gates=gates, psi=gl(psi), g_out=gl(gout), dpsi=gl(dpsi), q0_grad=gl(q0_grad),
+                                      tensors={nm: gl(x) for nm, x in zip(names, tens)}, fixed_arrays={str(i): gl(info[i]['array']) for i in range(len(info) - 1) if 'array' in info[i]}))
+                        break
+            except Exception:
+                pass
+            continue
         t = d['op'].split(' ')
         try:
             if t[1] == 'gg':
